@@ -30,19 +30,19 @@ func (pkg *EnvChangePackage) ReadFrom(ch BytesChannel) error {
 		return ErrNotEnoughBytes
 	}
 
-	var n uint16 = 0
-	for n < length {
+	n := 0
+	for n < int(length) {
 		member := EnvChangePackageField{}
 		i, err := member.ReadFrom(ch)
 		if err != nil {
 			return fmt.Errorf("error reading EnvChangePackage member: %w", err)
 		}
-		n += uint16(i)
+		n += i
 
 		pkg.members = append(pkg.members, member)
 	}
 
-	if n > length {
+	if n > int(length) {
 		return fmt.Errorf("read too many bytes, %d instead of expected %d", n, length)
 	}
 
